@@ -83,7 +83,11 @@ class Ctx:
             write = False
         counts = self.check_minima()
         fails = self.failing()
-        known = [k for k in load_known() if k.get("property") == self.prop and k.get("status") == "open"]
+        if os.environ.get("FRG_DUMP_RULE"):         # debugging aid: list the instances of one rule
+            for i in self.instances:
+                if os.environ["FRG_DUMP_RULE"] in i["rule"]:
+                    print("  [%s] %s %s: %s" % ("ok" if i["ok"] else "VIOLATED", i["rule"], i["instance"], i["detail"][:200]))
+        known = [k for k in load_known() if (k.get("property") == self.prop or self.prop in k.get("also", ())) and k.get("status") == "open"]
         known_keys = {(k["rule"], k["instance"]): k for k in known}
         viol = []
         kf = []
